@@ -16,6 +16,7 @@ canonical form of the Go harness (go/props/c14).
 -/
 import DosModel.Model.PipeExplore
 import DosModel.Model.PipeWf
+import DosModel.Model.PipeRun
 import DosModel.Model.Util
 import DosModel.Gen.PipeIR
 
@@ -112,9 +113,34 @@ def runSpin (m : List (String × String)) : String :=
   | none => "error unknown-pipeline"
   | some p => if (violations p).all (fun v => decide (6 ≤ v.rule)) then "exits" else "may-hang"
 
+/-- a `collect` line: does every collector of the pipeline close the channels it is handed
+    (`CollectorsOk`, the hypothesis of `collectors_eventually_close`)?  On failure: the collector, the
+    channel, and the first node at which it holds the channel without an escape edge towards `close`. -/
+def runCollect (m : List (String × String)) : String :=
+  match Gen.Pipes.all.find? (·.name == look m "p") with
+  | none => "error unknown-pipeline"
+  | some p =>
+    let hs := handoffs p
+    if hs.isEmpty then "no-handoff" else
+    let bad := hs.filterMap fun x =>
+      match p.gs[x.1]? with
+      | none => some "?"
+      | some gd =>
+        if CollectorOk p x.1 gd x.2.1 x.2.2 then none else
+        let own := ownD gd x.2.1 x.2.2
+        let dl := distTo (escEdges p x.1) gd.nodes (Node.closes x.2.1)
+        let stuck := gd.nodes.zipIdx.filterMap fun y =>
+          if mark own y.2 && !(y.1.closes x.2.1 || y.1.isExit) &&
+             !(escEdges p x.1 y.1).any (fun e => decide (distAt dl e.2 < distAt dl y.2))
+          then some (p.site x.1 y.2) else none
+        some (p.gname x.1 ++ " holds " ++ p.cname x.2.1 ++ " with no way to close it at [" ++
+          (String.intercalate "; " (stuck.take 3)).replace " " "_" ++ "]")
+    if bad.isEmpty then "closes" else "never-closes " ++ String.intercalate " " bad
+
 def step (line : String) : String :=
   match words line with
   | "sc" :: rest => runScenario (kvs rest)
+  | "collect" :: rest => runCollect (kvs rest)
   | "spin" :: rest => runSpin (kvs rest)
   | "full" :: rest => runFull (kvs rest)
   | ["wf", name] => runWf name
